@@ -627,17 +627,24 @@ Proof.
       * right. lia.
 Qed.
 
+(* [init_state] without the latch check: what it returns when the check passes (init_state_ok) *)
+Definition init_raw (cfg : config) (defs : gmap N lit_def) (a : aig) : rstate :=
+  let m0 := lm_insert ∅ 0 0 in
+  let '(m1, c1) := map_fresh m0 0 (a_inputs a) in
+  let '(m2, c2) := map_fresh m1 c1 (map l_state (a_latches a)) in
+  RState cfg defs m2 c2 [] [] ∅.
+
 Definition base_of (a : aig) : N := N.of_nat (length (a_inputs a) + length (a_latches a)).
 
 Lemma init_state_inv cfg defs a :
   defs_sound a defs ->
-  ginv a (base_of a) (init_state cfg defs a) /\ r_stack (init_state cfg defs a) = [] /\
-  r_cfg (init_state cfg defs a) = cfg /\ r_defs (init_state cfg defs a) = defs /\
-  is_Some (r_map (init_state cfg defs a) !! 0) /\
-  (forall l, In l (a_inputs a) -> is_Some (r_map (init_state cfg defs a) !! lkey l)) /\
-  (forall l, In l (a_latches a) -> is_Some (r_map (init_state cfg defs a) !! lkey (l_state l))).
+  ginv a (base_of a) (init_raw cfg defs a) /\ r_stack (init_raw cfg defs a) = [] /\
+  r_cfg (init_raw cfg defs a) = cfg /\ r_defs (init_raw cfg defs a) = defs /\
+  is_Some (r_map (init_raw cfg defs a) !! 0) /\
+  (forall l, In l (a_inputs a) -> is_Some (r_map (init_raw cfg defs a) !! lkey l)) /\
+  (forall l, In l (a_latches a) -> is_Some (r_map (init_raw cfg defs a) !! lkey (l_state l))).
 Proof.
-  intros Hd. unfold init_state.
+  intros Hd. unfold init_raw.
   destruct (map_fresh (lm_insert ∅ 0 0) 0 (a_inputs a)) as [m1 c1] eqn:E1.
   destruct (map_fresh m1 c1 (map l_state (a_latches a))) as [m2 c2] eqn:E2.
   apply map_fresh_spec in E1, E2.
@@ -691,6 +698,226 @@ Proof.
       * destruct IH as (l0 & s0 & r0 & Hl0 & HI & Hf & He). exists l0, s0, r0.
         split; [right; exact Hl0|]. split; [exact HI|]. split; [exact Hf|]. exact (ext_trans _ _ _ He1 He).
     + destruct H as (s0 & r0 & HI & Hf & He). exists l, s0, r0. split; [left; reflexivity|]. auto.
+Qed.
+
+(* ------------------------------------------------------------ the latch check of initialize *)
+
+Lemma NoDup_app_iff {A} (l1 l2 : list A) :
+  List.NoDup (l1 ++ l2) <-> List.NoDup l1 /\ List.NoDup l2 /\ (forall x, In x l1 -> ~ In x l2).
+Proof.
+  split.
+  - intros H. split; [|split].
+    + induction l1 as [|x l1 IH]; simpl in *; [constructor|]. inversion H; subst. constructor; [|auto].
+      intros Hin. apply H2. apply in_or_app. left. exact Hin.
+    + induction l1 as [|x l1 IH]; simpl in *; [exact H|]. inversion H; subst. auto.
+    + induction l1 as [|y l1 IH]; simpl in *; intros x Hx Hx2; [destruct Hx|]. inversion H; subst.
+      destruct Hx as [->|Hx]; [apply H2; apply in_or_app; right; exact Hx2|eapply IH; eassumption].
+  - intros (H1 & H2 & H3). apply NoDup_app_intro; assumption.
+Qed.
+
+Lemma defs_contains_has_var d s :
+  defs_contains d s || defs_contains d (lneg s) = true <-> has_var d (N.div2 s).
+Proof.
+  unfold defs_contains. split.
+  - intros H. apply orb_true_iff in H. destruct H as [H|H].
+    + exists s. destruct (d !! s) eqn:E; [eauto|discriminate].
+    + exists (lneg s). destruct (d !! lneg s) eqn:E; [|discriminate]. split; [eauto|apply lneg_div2].
+  - intros (k & [x Hk] & Hv). destruct (same_var _ _ Hv) as [->| ->]; rewrite Hk; [reflexivity|apply orb_true_r].
+Qed.
+
+Lemma latches_fresh_ok defs ls : forall (m : gmap N N) last m' last',
+  latches_fresh defs m last ls = ROk (m', last') ->
+  map_fresh m last ls = (m', last') /\
+  forall pre s post, ls = pre ++ s :: post ->
+    ~ has_var defs (N.div2 s) /\ m !! lkey s = None /\ ~ In (N.div2 s) (map N.div2 pre).
+Proof.
+  induction ls as [|s0 rest IH]; intros m last m' last'; simpl.
+  - intros [= <- <-]. split; [reflexivity|]. intros [|? ?] ? ? E; discriminate.
+  - destruct (defs_contains defs s0 || defs_contains defs (lneg s0)) eqn:Ed; [discriminate|]. simpl.
+    unfold lm_contains. destruct (m !! lkey s0) eqn:Em; [discriminate|]. intros H.
+    apply IH in H. destruct H as [Hmf Hall]. split; [exact Hmf|].
+    intros pre s post E. destruct pre as [|p pre]; simpl in E.
+    + injection E as <- _. split; [|split; [exact Em|intros []]].
+      intros Hv. apply defs_contains_has_var in Hv. congruence.
+    + injection E as <- ->. destruct (Hall pre s post eq_refl) as (H1 & H2 & H3).
+      unfold lm_insert in H2. split; [exact H1|].
+      destruct (decide (lkey s = lkey s0)) as [E|E]; [rewrite E, lookup_insert in H2; discriminate|].
+      rewrite lookup_insert_ne in H2 by congruence. split; [exact H2|].
+      simpl. intros [Hp|Hp]; [|exact (H3 Hp)]. apply E. apply lkey_eq_iff. symmetry. exact Hp.
+Qed.
+
+Lemma latches_fresh_err defs ls : forall (m : gmap N N) last e,
+  latches_fresh defs m last ls = RErr e ->
+  exists pre s post, ls = pre ++ s :: post /\ e = LitAlreadyDefined s /\
+    (exists mm, latches_fresh defs m last pre = ROk mm) /\
+    (has_var defs (N.div2 s) \/ is_Some (m !! lkey s) \/ In (N.div2 s) (map N.div2 pre)).
+Proof.
+  induction ls as [|s0 rest IH]; intros m last e; simpl; [discriminate|].
+  destruct (defs_contains defs s0 || defs_contains defs (lneg s0)) eqn:Ed; simpl.
+  { intros [= <-]. exists [], s0, rest. split; [reflexivity|]. split; [reflexivity|]. split; [simpl; eauto|].
+    left. apply defs_contains_has_var. exact Ed. }
+  unfold lm_contains. destruct (m !! lkey s0) eqn:Em.
+  { intros [= <-]. exists [], s0, rest. split; [reflexivity|]. split; [reflexivity|]. split; [simpl; eauto|].
+    right. left. rewrite Em. eauto. }
+  intros H. apply IH in H. destruct H as (pre & s & post & -> & -> & [mm Hpre] & Hcl).
+  exists (s0 :: pre), s, post. split; [reflexivity|]. split; [reflexivity|]. split.
+  - exists mm. simpl. rewrite Ed. simpl. unfold lm_contains. rewrite Em. exact Hpre.
+  - destruct Hcl as [H|[H|H]]; [left; exact H| |right; right; right; exact H].
+    unfold lm_insert in H. destruct (decide (lkey s = lkey s0)) as [E|E].
+    + right. right. left. symmetry. apply lkey_eq_iff. exact E.
+    + rewrite lookup_insert_ne in H by congruence. right. left. exact H.
+Qed.
+
+Lemma map_fresh_dom ls : forall (m : gmap N N) last m' last',
+  map_fresh m last ls = (m', last') ->
+  forall k, is_Some (m' !! k) -> is_Some (m !! k) \/ exists l, In l ls /\ k = lkey l.
+Proof.
+  induction ls as [|l rest IH]; intros m last m' last'; simpl.
+  - intros [= <- <-] k Hk. left. exact Hk.
+  - intros H k Hk. destruct (IH _ _ _ _ H k Hk) as [Hm|(l' & Hl' & ->)].
+    + unfold lm_insert in Hm. destruct (decide (k = lkey l)) as [->|Hne]; [right; exists l; auto|].
+      rewrite lookup_insert_ne in Hm by congruence. left. exact Hm.
+    + right. exists l'. auto.
+Qed.
+
+Lemma defs_gates_has_var gs d d' : defs_gates d gs = ROk d' ->
+  forall v, has_var d' v <-> has_var d v \/ In v (map gvar gs).
+Proof.
+  intros H. apply defs_gates_ok in H. destruct H as (_ & _ & Hiff). intros v. split.
+  - intros (k & [x Hk] & <-). apply Hiff in Hk. destruct Hk as [Hk|(g & Hin & -> & _)].
+    + left. exists k. split; [eauto|reflexivity].
+    + right. apply in_map_iff. exists g. auto.
+  - intros [(k & [x Hk] & <-)|Hin].
+    + exists k. split; [|reflexivity]. exists x. apply Hiff. left. exact Hk.
+    + apply in_map_iff in Hin. destruct Hin as (g & <- & Hin). exists (g_out g). split; [|reflexivity].
+      exists (DGate (g_in0 g) (g_in1 g)). apply Hiff. right. exists g. auto.
+Qed.
+
+Lemma lit_defs_has_var a d : lit_defs a = ROk d -> forall v, has_var d v <-> In v (checked_vars a).
+Proof.
+  unfold lit_defs. destruct (defs_inputs _ 0%N (a_inputs a)) as [d1|e] eqn:E1; [|discriminate].
+  intros E2 v. rewrite (defs_gates_has_var _ _ _ E2 v).
+  apply defs_inputs_ok in E1. destruct E1 as (_ & _ & Hhv & _). rewrite Hhv, has_var_const.
+  unfold checked_vars. simpl. rewrite in_app_iff. intuition.
+Qed.
+
+(* the literals in the order in which their definitions are checked: by lit_defs (constant, inputs,
+   gate outputs), then by initialize (latch states) *)
+Definition check_order (a : aig) : list lit :=
+  0 :: a_inputs a ++ map g_out (a_gates a) ++ map l_state (a_latches a).
+
+(* [l] is the first literal of [xs] whose variable occurs before it *)
+Definition first_clash (xs : list lit) (l : lit) : Prop :=
+  exists pre post, xs = pre ++ l :: post /\ List.NoDup (map N.div2 pre) /\ In (N.div2 l) (map N.div2 pre).
+
+Lemma app_split_cases {A} (pre : list A) : forall l post pre' l' post',
+  pre ++ l :: post = pre' ++ l' :: post' ->
+  (pre = pre' /\ l = l') \/ (exists rest, pre' = pre ++ l :: rest) \/ (exists rest, pre = pre' ++ l' :: rest).
+Proof.
+  induction pre as [|x pre IH]; intros l post pre' l' post' E; destruct pre' as [|y pre']; simpl in E.
+  - injection E as -> _. left. auto.
+  - injection E as -> _. right. left. exists pre'. reflexivity.
+  - injection E as -> _. right. right. exists pre. reflexivity.
+  - injection E as -> E. destruct (IH _ _ _ _ _ E) as [[-> ->]|[[rest ->]|[rest ->]]].
+    + left. auto.
+    + right. left. exists rest. reflexivity.
+    + right. right. exists rest. reflexivity.
+Qed.
+
+Lemma first_clash_fun xs l l' : first_clash xs l -> first_clash xs l' -> l = l'.
+Proof.
+  intros (pre & post & -> & Hnd & Hin) (pre' & post' & E & Hnd' & Hin').
+  destruct (app_split_cases _ _ _ _ _ _ E) as [[_ H]|[[rest ->]|[rest ->]]]; [exact H| |]; exfalso.
+  - rewrite map_app in Hnd'. simpl in Hnd'. apply NoDup_app_iff in Hnd'. destruct Hnd' as (_ & _ & Hd).
+    apply (Hd _ Hin). left. reflexivity.
+  - rewrite map_app in Hnd. simpl in Hnd. apply NoDup_app_iff in Hnd. destruct Hnd as (_ & _ & Hd).
+    apply (Hd _ Hin'). left. reflexivity.
+Qed.
+
+Lemma NoDup_prefix_cond {A} (f : A -> N) (ls : list A) :
+  (forall pre s post, ls = pre ++ s :: post -> ~ In (f s) (map f pre)) -> List.NoDup (map f ls).
+Proof.
+  induction ls as [|x l IH]; intros H; simpl; [constructor|]. constructor.
+  - intros Hin. apply in_map_iff in Hin. destruct Hin as (y & Hy & Hin).
+    destruct (in_split _ _ Hin) as (l1 & l2 & ->).
+    apply (H (x :: l1) y l2 eq_refl). left. symmetry. exact Hy.
+  - apply IH. intros pre s post ->. intros Hin. apply (H (x :: pre) s post eq_refl). right. exact Hin.
+Qed.
+
+Lemma checked_vars_map a : checked_vars a = map N.div2 (0 :: a_inputs a ++ map g_out (a_gates a)).
+Proof. unfold checked_vars. simpl. rewrite map_app, map_map. reflexivity. Qed.
+
+Lemma defined_vars_split a :
+  defined_vars a = 0 :: map N.div2 (a_inputs a) ++ map N.div2 (map l_state (a_latches a)) ++ map gvar (a_gates a).
+Proof. unfold defined_vars. rewrite map_map. reflexivity. Qed.
+
+(* no variable is defined twice <-> no clash in checking order *)
+Lemma wf_defs_check_order a : wf_defs a <-> List.NoDup (map N.div2 (check_order a)).
+Proof.
+  unfold wf_defs, check_order. rewrite defined_vars_split. simpl. rewrite !map_app, (map_map g_out N.div2).
+  change (map (fun x => N.div2 (g_out x)) (a_gates a)) with (map gvar (a_gates a)).
+  set (I := map N.div2 (a_inputs a)). set (L := map N.div2 (map l_state (a_latches a))). set (G := map gvar (a_gates a)).
+  split; intros H; inversion H as [|? ? H0 Hnd]; subst; constructor.
+  - rewrite !in_app_iff in *. tauto.
+  - apply NoDup_app_iff in Hnd. destruct Hnd as (HI & HLG & Hd). apply NoDup_app_iff in HLG. destruct HLG as (HL & HG & Hd2).
+    apply NoDup_app_iff. split; [exact HI|]. split.
+    + apply NoDup_app_iff. split; [exact HG|]. split; [exact HL|]. intros x Hx Hx'. exact (Hd2 x Hx' Hx).
+    + intros x Hx Hx'. apply (Hd x Hx). rewrite in_app_iff in *. tauto.
+  - rewrite !in_app_iff in *. tauto.
+  - apply NoDup_app_iff in Hnd. destruct Hnd as (HI & HGL & Hd). apply NoDup_app_iff in HGL. destruct HGL as (HG & HL & Hd2).
+    apply NoDup_app_iff. split; [exact HI|]. split.
+    + apply NoDup_app_iff. split; [exact HL|]. split; [exact HG|]. intros x Hx Hx'. exact (Hd2 x Hx' Hx).
+    + intros x Hx Hx'. apply (Hd x Hx). rewrite in_app_iff in *. tauto.
+Qed.
+
+(* when the latch check passes, [initialize] continues from [init_raw], and together with the
+   checks of lit_defs no variable is defined twice *)
+Lemma init_state_ok cfg defs a r0 :
+  lit_defs a = ROk defs -> init_state cfg defs a = ROk r0 -> r0 = init_raw cfg defs a /\ wf_defs a.
+Proof.
+  intros Hd. unfold init_state, init_raw.
+  destruct (map_fresh (lm_insert ∅ 0 0) 0 (a_inputs a)) as [m1 c1] eqn:E1.
+  destruct (latches_fresh defs m1 c1 (map l_state (a_latches a))) as [[m2 c2]|e] eqn:EL; [|discriminate].
+  intros [= <-]. apply latches_fresh_ok in EL. destruct EL as [-> Hall]. split; [reflexivity|].
+  apply wf_defs_check_order. unfold check_order.
+  change (0 :: a_inputs a ++ map g_out (a_gates a) ++ map l_state (a_latches a))
+    with ((0 :: a_inputs a) ++ map g_out (a_gates a) ++ map l_state (a_latches a)).
+  rewrite app_assoc, map_app. apply NoDup_app_iff.
+  pose proof (proj1 (lit_defs_ok a defs Hd)) as Hnd. rewrite checked_vars_map in Hnd.
+  split; [exact Hnd|]. split.
+  - apply NoDup_prefix_cond. intros pre s post E. apply (Hall pre s post E).
+  - intros x Hx Hx'. apply in_map_iff in Hx'. destruct Hx' as (s & <- & Hs).
+    destruct (in_split _ _ Hs) as (pre & post & E). destruct (Hall pre s post E) as (Hnv & _).
+    apply Hnv. apply (lit_defs_has_var a defs Hd). rewrite checked_vars_map. exact Hx.
+Qed.
+
+Lemma init_state_err cfg defs a e :
+  lit_defs a = ROk defs -> init_state cfg defs a = RErr e ->
+  exists s, e = LitAlreadyDefined s /\ In s (map l_state (a_latches a)) /\ first_clash (check_order a) s.
+Proof.
+  intros Hd. unfold init_state.
+  destruct (map_fresh (lm_insert ∅ 0 0) 0 (a_inputs a)) as [m1 c1] eqn:E1.
+  destruct (latches_fresh defs m1 c1 (map l_state (a_latches a))) as [[m2 c2]|e'] eqn:EL; [discriminate|].
+  intros [= <-]. apply latches_fresh_err in EL. destruct EL as (pre & s & post & Els & -> & [[m' c'] Hpre] & Hcl).
+  apply latches_fresh_ok in Hpre. destruct Hpre as [_ Hall].
+  exists s. split; [reflexivity|]. split; [rewrite Els; apply in_or_app; right; left; reflexivity|].
+  pose proof (proj1 (lit_defs_ok a defs Hd)) as Hnd. rewrite checked_vars_map in Hnd.
+  exists ((0 :: a_inputs a ++ map g_out (a_gates a)) ++ pre), post. split; [|split].
+  - unfold check_order. rewrite Els. simpl. rewrite <- !app_assoc. reflexivity.
+  - rewrite map_app. apply NoDup_app_iff. split; [exact Hnd|]. split.
+    + apply NoDup_prefix_cond. intros p1 x p2 E. apply (Hall p1 x p2 E).
+    + intros x Hx Hx'. apply in_map_iff in Hx'. destruct Hx' as (y & <- & Hy).
+      destruct (in_split _ _ Hy) as (p1 & p2 & E). destruct (Hall p1 y p2 E) as (Hnv & _).
+      apply Hnv. apply (lit_defs_has_var a defs Hd). rewrite checked_vars_map. exact Hx.
+  - rewrite map_app, in_app_iff. destruct Hcl as [Hv|[Hm|Hp]]; [left| |right; exact Hp].
+    + rewrite <- checked_vars_map. apply (lit_defs_has_var a defs Hd). exact Hv.
+    + left. destruct (map_fresh_dom _ _ _ _ _ E1 _ Hm) as [H0|(l & Hl & Hk)].
+      * unfold lm_insert in H0. change (lkey 0) with 0 in H0.
+        destruct (decide (lkey s = 0)) as [E|E].
+        -- left. rewrite lkey_spec in E. simpl. lia.
+        -- rewrite lookup_insert_ne, lookup_empty in H0 by congruence. destruct H0; discriminate.
+      * right. rewrite map_app. apply in_or_app. left. apply in_map_iff. exists l. split; [|exact Hl].
+        symmetry. apply lkey_eq_iff. exact Hk.
 Qed.
 
 (* ------------------------------------------------------------ the ordered result *)
@@ -784,15 +1011,28 @@ Proof.
   apply in_app_or in Ht. destruct Ht as [Ht|Ht]; [eapply Forall2_get_bound; eassumption|auto].
 Qed.
 
+(* Renumber::new: lit_defs, then the latch check, then the transfers from [init_raw] *)
+Lemma renumber_new_unfold cfg a :
+  (exists e, lit_defs a = RErr e /\ renumber_new cfg a = IErr e) \/
+  (exists defs e, lit_defs a = ROk defs /\ init_state cfg defs a = RErr e /\ renumber_new cfg a = IErr e) \/
+  (exists defs, lit_defs a = ROk defs /\ init_state cfg defs a = ROk (init_raw cfg defs a) /\ wf_defs a /\
+     renumber_new cfg a = transfer_all (transfer_fuel a) (init_raw cfg defs a) (roots cfg a)).
+Proof.
+  unfold renumber_new. destruct (lit_defs a) as [defs|e] eqn:Ed; [|left; eauto].
+  right. destruct (init_state cfg defs a) as [r0|e] eqn:Ei; [|left; eauto].
+  right. destruct (init_state_ok cfg defs a r0 Ed Ei) as [-> Hwf]. exists defs. auto.
+Qed.
+
 (* everything Renumber::new establishes when it returns Ok *)
 Lemma renumber_new_done cfg a r :
   renumber_new cfg a = IDone r ->
   exists defs, lit_defs a = ROk defs /\ ginv a (base_of a) r /\ r_stack r = [] /\
-    ext (init_state cfg defs a) r /\
-    (forall l, In l (roots cfg a) -> is_Some (r_map r !! lkey l)).
+    ext (init_raw cfg defs a) r /\
+    (forall l, In l (roots cfg a) -> is_Some (r_map r !! lkey l)) /\ wf_defs a.
 Proof.
-  unfold renumber_new. destruct (lit_defs a) as [defs|e] eqn:Ed; [|discriminate].
-  intros H. exists defs. split; [reflexivity|].
+  intros H. destruct (renumber_new_unfold cfg a) as [(e & _ & E)|[(defs & e & _ & _ & E)|(defs & Ed & _ & Hwf & E)]];
+    try congruence.
+  rewrite E in H. exists defs. split; [exact Ed|].
   destruct (init_state_inv cfg defs a (lit_defs_sound a defs Ed)) as (G0 & Hs0 & _).
   pose proof (transfer_all_inv a (base_of a) (transfer_fuel a) (roots cfg a) _ G0 Hs0) as HT.
   rewrite H in HT. tauto.
@@ -807,7 +1047,7 @@ Proof. intros H. unfold roots. apply in_or_app. right. exact H. Qed.
 (* lit_map.get(..).unwrap() never panics *)
 Lemma build_ordered_total cfg a r : renumber_new cfg a = IDone r -> is_Some (build_ordered a r).
 Proof.
-  intros H. destruct (renumber_new_done cfg a r H) as (defs & _ & _ & _ & _ & Hr).
+  intros H. destruct (renumber_new_done cfg a r H) as (defs & _ & _ & _ & _ & Hr & _).
   assert (Hget : forall l, In l (root_lits a) -> is_Some (lm_get (r_map r) l)).
   { intros l Hl. apply lm_get_is_Some. apply Hr. apply (root_lits_roots cfg). exact Hl. }
   unfold root_lits in Hget. unfold build_ordered.
@@ -878,7 +1118,7 @@ Theorem renumber_order cfg a o r :
   (forall l t, lm_get (r_map r) l = Some t -> t <= 2 * o_maxvar o + 1).
 Proof.
   intros H nI nL. apply renumber_ok_inv in H. destruct H as [Hn Hb].
-  destruct (renumber_new_done cfg a r Hn) as (defs & _ & G & _ & _ & _).
+  destruct (renumber_new_done cfg a r Hn) as (defs & _ & G & _ & _ & _ & Hwf).
   destruct (build_ordered_fields a r o Hb) as (Hm & Hi & Hg & Hl & Ho & Hbd & Hc & Hj & Hf).
   assert (Hmax : o_maxvar o = maxv (base_of a) r).
   { rewrite Hm, <- N.div2_spec, (gi_last _ _ _ G). apply div2_double. }
@@ -922,15 +1162,18 @@ Qed.
 
 Lemma renumber_err cfg a e : renumber_aig cfg a = RnErr e ->
   lit_defs a = RErr e \/
+  (exists defs, lit_defs a = ROk defs /\ init_state cfg defs a = RErr e) \/
   exists defs l0 s0 r0, lit_defs a = ROk defs /\ In l0 (roots cfg a) /\
-    Inv a (base_of a) l0 s0 r0 /\ rstep s0 r0 = Failed e /\ ext (init_state cfg defs a) r0.
+    Inv a (base_of a) l0 s0 r0 /\ rstep s0 r0 = Failed e /\ ext (init_raw cfg defs a) r0.
 Proof.
-  unfold renumber_aig, renumber_new. destruct (lit_defs a) as [defs|e'] eqn:Ed.
+  unfold renumber_aig.
+  destruct (renumber_new_unfold cfg a) as [(e' & Ed & E)|[(defs & e' & Ed & Ei & E)|(defs & Ed & _ & _ & E)]]; rewrite E.
+  - intros [= <-]. left. exact Ed.
+  - intros [= <-]. right. left. eauto.
   - destruct (init_state_inv cfg defs a (lit_defs_sound a defs Ed)) as (G0 & Hs0 & _).
     pose proof (transfer_all_inv a (base_of a) (transfer_fuel a) (roots cfg a) _ G0 Hs0) as HT.
     destruct (transfer_all _ _ _) as [r|e'|]; [destruct (build_ordered a r); discriminate| |discriminate].
-    intros [= <-]. right. destruct HT as (l0 & s0 & r0 & H). exists defs, l0, s0, r0. tauto.
-  - intros [= <-]. left. reflexivity.
+    intros [= <-]. right. right. destruct HT as (l0 & s0 & r0 & H). exists defs, l0, s0, r0. tauto.
 Qed.
 
 Lemma frame_dep a m k : frame_ok a m k -> dep a (N.div2 (cont_lit k)) (N.div2 (want k)).
@@ -962,8 +1205,10 @@ Qed.
 Theorem renumber_cycle_real cfg a l :
   renumber_aig cfg a = RnErr (FoundCycle l) -> clos_trans N (dep a) (N.div2 l) (N.div2 l).
 Proof.
-  intros H. apply renumber_err in H. destruct H as [H|(defs & l0 & s0 & r0 & Hd & Hl0 & [G S] & Hf & He)].
+  intros H. apply renumber_err in H.
+  destruct H as [H|[(defs & Hd & H)|(defs & l0 & s0 & r0 & Hd & Hl0 & [G S] & Hf & He)]].
   - apply lit_defs_err in H. destruct H as (? & ? & ? & _ & [=] & _).
+  - apply (init_state_err cfg defs a _ Hd) in H. destruct H as (? & [=] & _).
   - apply rstep_failed in Hf. destruct Hf as (l' & -> & Hg & [[[= <-] Hc]|[[=] _]]).
     destruct S as [Hch Hl]. apply cycle_test_true in Hc. destruct Hc as (k & Hk & Hlk).
     pose proof (chain_dep _ _ _ _ Hch k Hk) as Hp. rewrite <- Hl, <- Hlk in Hp. exact Hp.
@@ -983,12 +1228,14 @@ Qed.
 Theorem renumber_undefined_real cfg a l :
   renumber_aig cfg a = RnErr (LitNotDefined l) -> ~ In (N.div2 l) (defined_vars a).
 Proof.
-  intros H. apply renumber_err in H. destruct H as [H|(defs & l0 & s0 & r0 & Hd & Hl0 & [G S] & Hf & He)].
+  intros H. apply renumber_err in H.
+  destruct H as [H|[(defs & Hd & H)|(defs & l0 & s0 & r0 & Hd & Hl0 & [G S] & Hf & He)]].
   - apply lit_defs_err in H. destruct H as (? & ? & ? & _ & [=] & _).
+  - apply (init_state_err cfg defs a _ Hd) in H. destruct H as (? & [=] & _).
   - apply rstep_failed in Hf. destruct Hf as (l' & -> & Hg & [[[=] _]|[[= <-] Hfd]]).
     destruct (init_state_inv cfg defs a (lit_defs_sound a defs Hd)) as (_ & _ & _ & Hdefs0 & Hk0 & Hki & Hkl).
     destruct He as (_ & Hdefs & Hdom). apply lm_get_None in Hg.
-    assert (Hnot : forall k, N.div2 k = N.div2 l -> ~ is_Some (r_map (init_state cfg defs a) !! lkey k)).
+    assert (Hnot : forall k, N.div2 k = N.div2 l -> ~ is_Some (r_map (init_raw cfg defs a) !! lkey k)).
     { intros k Hk Hs. apply Hdom in Hs. apply lkey_eq_iff in Hk. rewrite Hk, Hg in Hs. destruct Hs; discriminate. }
     unfold defined_vars. intros [H0|Hin].
     + apply (Hnot 0); [exact H0|exact Hk0].
@@ -999,18 +1246,74 @@ Proof.
         -- rewrite Hdefs, Hdefs0 in Hfd. exact (find_def_none a defs l (proj2 (lit_defs_ok a defs Hd)) Hfd Hin).
 Qed.
 
-(* LitAlreadyDefined is decided by lit_defs alone ... *)
-Theorem renumber_redefined_iff cfg a l :
-  renumber_aig cfg a = RnErr (LitAlreadyDefined l) <-> lit_defs a = RErr (LitAlreadyDefined l).
+Lemma first_clash_not_nodup xs l : first_clash xs l -> ~ List.NoDup (map N.div2 xs).
 Proof.
-  split.
-  - intros H. apply renumber_err in H. destruct H as [H|(defs & l0 & s0 & r0 & _ & _ & _ & Hf & _)]; [exact H|].
-    apply rstep_failed in Hf. destruct Hf as (l' & _ & _ & [[[=] _]|[[=] _]]).
-  - intros H. unfold renumber_aig, renumber_new. rewrite H. reflexivity.
+  intros (pre & post & -> & _ & Hin) Hnd. rewrite map_app in Hnd. simpl in Hnd.
+  apply NoDup_app_iff in Hnd. destruct Hnd as (_ & _ & Hd). apply (Hd _ Hin). left. reflexivity.
 Qed.
 
-Lemma checked_vars_map a : checked_vars a = map N.div2 (0 :: a_inputs a ++ map g_out (a_gates a)).
-Proof. unfold checked_vars. simpl. rewrite map_app, map_map. reflexivity. Qed.
+Lemma lit_defs_first_clash a e : lit_defs a = RErr e -> exists l, e = LitAlreadyDefined l /\ first_clash (check_order a) l.
+Proof.
+  intros H. apply lit_defs_err in H. destruct H as (pre & l & post & E & -> & _ & Hnd & Hin).
+  exists l. split; [reflexivity|]. exists pre, (post ++ map l_state (a_latches a)). split; [|auto].
+  unfold check_order.
+  change (0 :: a_inputs a ++ map g_out (a_gates a) ++ map l_state (a_latches a))
+    with ((0 :: a_inputs a) ++ map g_out (a_gates a) ++ map l_state (a_latches a)).
+  rewrite app_assoc. change ((0 :: a_inputs a) ++ map g_out (a_gates a)) with (0 :: a_inputs a ++ map g_out (a_gates a)).
+  rewrite E, <- app_assoc. reflexivity.
+Qed.
+
+(* LitAlreadyDefined l: in the order constant, inputs, gate outputs, latch states, l is the first
+   literal whose variable was defined before it; and every such graph is rejected with that literal *)
+Theorem renumber_redefined_iff cfg a l :
+  renumber_aig cfg a = RnErr (LitAlreadyDefined l) <-> first_clash (check_order a) l.
+Proof.
+  split.
+  - intros H. apply renumber_err in H.
+    destruct H as [H|[(defs & Hd & H)|(defs & l0 & s0 & r0 & _ & _ & _ & Hf & _)]].
+    + apply lit_defs_first_clash in H. destruct H as (l' & [= <-] & H). exact H.
+    + apply (init_state_err cfg defs a _ Hd) in H. destruct H as (s & [= <-] & _ & H). exact H.
+    + apply rstep_failed in Hf. destruct Hf as (l' & _ & _ & [[[=] _]|[[=] _]]).
+  - intros Hc. unfold renumber_aig.
+    destruct (renumber_new_unfold cfg a) as [(e & Ed & E)|[(defs & e & Ed & Ei & E)|(defs & Ed & _ & Hwf & E)]].
+    + rewrite E. apply lit_defs_first_clash in Ed. destruct Ed as (l' & -> & Hc').
+      rewrite (first_clash_fun _ _ _ Hc Hc'). reflexivity.
+    + rewrite E. apply (init_state_err cfg defs a _ Ed) in Ei. destruct Ei as (l' & -> & _ & Hc').
+      rewrite (first_clash_fun _ _ _ Hc Hc'). reflexivity.
+    + exfalso. apply wf_defs_check_order in Hwf. exact (first_clash_not_nodup _ _ Hc Hwf).
+Qed.
+
+(* no variable defined twice (latch states included) <-> no LitAlreadyDefined *)
+Theorem renumber_wf_iff cfg a :
+  wf_defs a <-> forall l, renumber_aig cfg a <> RnErr (LitAlreadyDefined l).
+Proof.
+  split.
+  - intros Hwf l H. apply renumber_redefined_iff in H. apply wf_defs_check_order in Hwf.
+    exact (first_clash_not_nodup _ _ H Hwf).
+  - intros H. unfold renumber_aig in H.
+    destruct (renumber_new_unfold cfg a) as [(e & Ed & E)|[(defs & e & Ed & Ei & E)|(defs & Ed & _ & Hwf & E)]].
+    + rewrite E in H. apply lit_defs_first_clash in Ed. destruct Ed as (l' & -> & _). exfalso. apply (H l'). reflexivity.
+    + rewrite E in H. apply (init_state_err cfg defs a _ Ed) in Ei. destruct Ei as (l' & -> & _).
+      exfalso. apply (H l'). reflexivity.
+    + exact Hwf.
+Qed.
+
+(* a returned circuit means that no variable was defined twice *)
+Theorem renumber_ok_wf cfg a o r : renumber_aig cfg a = RnOk o r -> wf_defs a.
+Proof. intros H. apply (renumber_wf_iff cfg a). intros l E. congruence. Qed.
+
+(* a latch whose state variable is the constant, an input, a gate output or an earlier latch (either
+   polarity), in a graph without an earlier clash, is rejected with that latch's state literal *)
+Theorem renumber_latch_clash cfg a pre s post :
+  map l_state (a_latches a) = pre ++ s :: post ->
+  List.NoDup (map N.div2 ((0 :: a_inputs a ++ map g_out (a_gates a)) ++ pre)) ->
+  In (N.div2 s) (map N.div2 ((0 :: a_inputs a ++ map g_out (a_gates a)) ++ pre)) ->
+  renumber_aig cfg a = RnErr (LitAlreadyDefined s).
+Proof.
+  intros E Hnd Hin. apply renumber_redefined_iff.
+  exists ((0 :: a_inputs a ++ map g_out (a_gates a)) ++ pre), post. split; [|auto].
+  unfold check_order. rewrite E. simpl. rewrite <- !app_assoc. reflexivity.
+Qed.
 
 (* ... which reports the first input or gate output whose variable was defined before it (by the
    constant, an input or a gate), and succeeds exactly when there is none *)
@@ -1629,9 +1932,9 @@ Section SoundTop.
     destruct H1 as (G1 & Hs1 & _). destruct H2 as [Hm1 Hi1]. apply IH; assumption.
   Qed.
 
-  Lemma init_sound cfg defs : map_sound a ρ (init_state cfg defs a) /\ index_sound a ρ (init_state cfg defs a).
+  Lemma init_sound cfg defs : map_sound a ρ (init_raw cfg defs a) /\ index_sound a ρ (init_raw cfg defs a).
   Proof.
-    unfold init_state.
+    unfold init_raw.
     destruct (map_fresh (lm_insert ∅ 0 0) 0 (a_inputs a)) as [m1 c1] eqn:E1.
     destruct (map_fresh m1 c1 (map l_state (a_latches a))) as [m2 c2] eqn:E2.
     split; [|intros x y c Hc; simpl in Hc; rewrite lookup_empty in Hc; discriminate].
@@ -1669,7 +1972,9 @@ Section SoundTop.
 
   Lemma renumber_new_sound cfg r : renumber_new cfg a = IDone r -> map_sound a ρ r.
   Proof.
-    unfold renumber_new. destruct (lit_defs a) as [defs|e] eqn:Ed; [|discriminate]. intros H.
+    intros H. destruct (renumber_new_unfold cfg a) as [(e & _ & E)|[(defs & e & _ & _ & E)|(defs & Ed & _ & _ & E)]];
+      try congruence.
+    rewrite E in H.
     destruct (init_state_inv cfg defs a (lit_defs_sound a defs Ed)) as (G0 & Hs0 & _).
     destruct (init_sound cfg defs) as [Hm0 Hi0].
     pose proof (transfer_all_sound (transfer_fuel a) (roots cfg a) _ G0 Hs0 Hm0 Hi0) as HT.
@@ -1681,7 +1986,7 @@ Lemma div2_le_mono x y : y <= x -> N.div2 y <= N.div2 x.
 Proof. intros H. rewrite !N.div2_div. apply N.div_le_mono; lia. Qed.
 
 Theorem renumber_sound cfg a o r :
-  wf_defs a -> renumber_aig cfg a = RnOk o r ->
+  renumber_aig cfg a = RnOk o r ->
   let a' := aig_of_ordered o in
   (forall l t, lm_get (r_map r) l = Some t -> same_function a a' l t) /\
   Forall2 (fun l t => same_function a a' (l_next l) (fst t) /\ snd t = l_init l) (a_latches a) (o_latches o) /\
@@ -1691,8 +1996,8 @@ Theorem renumber_sound cfg a o r :
   Forall2 (Forall2 (same_function a a')) (a_justice a) (o_justice o) /\
   Forall2 (same_function a a') (a_fairness a) (o_fairness o).
 Proof.
-  intros Hwf H a'. apply renumber_ok_inv in H. destruct H as [Hn Hb].
-  destruct (renumber_new_done cfg a r Hn) as (defs & _ & G & _ & _ & _).
+  intros H a'. apply renumber_ok_inv in H. destruct H as [Hn Hb].
+  destruct (renumber_new_done cfg a r Hn) as (defs & _ & G & _ & _ & _ & Hwf).
   destruct (build_ordered_fields a r o Hb) as (Hm & Hi & Hg & Hl & Ho & Hbd & Hc & Hj & Hf).
   assert (Hll : length (o_latches o) = length (a_latches a)) by (symmetry; eapply Forall2_length; exact Hl).
   assert (Hbase : o_input_count o + N.of_nat (length (o_latches o)) = base_of a).
@@ -1718,58 +2023,28 @@ Proof.
   eapply Forall2_impl; [exact Hj|]. intros ls ts H1. eapply Forall2_impl; [exact H1|]. intros l t H2. apply Hmain; exact H2.
 Qed.
 
-(* ------------------------------------------------------------ the latch clash (D10) *)
+(* ------------------------------------------------------------ latch clashes (D10, fixed) *)
 
-(* a latch whose state literal is the constant: the constant-false output becomes the latch *)
-Definition clash_const : aig := Aig 0 [] [Latch 0 0 None] [0] [] [] [] [] [].
-(* a latch whose state literal is an input: the output that reads the input becomes the latch *)
-Definition clash_input : aig := Aig 1 [2] [Latch 2 2 None] [2] [] [] [] [] [].
-
-Lemma clash_outputs_differ a cfg (o : ordered_aig) r l t :
-  renumber_aig cfg a = RnOk o r -> a_outputs a = [l] -> o_outputs o = [t] ->
-  (exists ρ n m b, eval a ρ n l = Some b /\ eval (aig_of_ordered o) ρ m t = Some (negb b)) ->
-  exists cfg o r, renumber_aig cfg a = RnOk o r /\
-    ~ Forall2 (same_function a (aig_of_ordered o)) (a_outputs a) (o_outputs o).
-Proof.
-  intros H Ha Ho (ρ & n & m & b & H1 & H2). exists cfg, o, r. split; [exact H|].
-  rewrite Ha, Ho. intros HF. inversion HF as [|? ? ? ? Hs _]; subst.
-  destruct (Hs ρ) as (b' & E1 & E2).
-  pose proof (evals_fun _ _ _ _ _ E1 (ex_intro _ n H1)). pose proof (evals_fun _ _ _ _ _ E2 (ex_intro _ m H2)).
-  subst b'. destruct b; discriminate.
-Qed.
-
-Lemma renumber_latch_clash_refuted :
-  exists a, ~ wf_defs a /\ exists cfg o r, renumber_aig cfg a = RnOk o r /\
-    ~ Forall2 (same_function a (aig_of_ordered o)) (a_outputs a) (o_outputs o).
-Proof.
-  exists clash_const. split.
-  - unfold wf_defs, defined_vars. simpl. intros H. inversion H as [|? ? Hn _]; subst. apply Hn. left. reflexivity.
-  - destruct (renumber_aig (Config false false false) clash_const) as [o r| | |] eqn:E;
-      try (vm_compute in E; discriminate).
-    assert (Ho : o_outputs o = [2] /\ o_input_count o = 0 /\ o_latches o = [(2, None)] /\ o_gates o = []).
-    { vm_compute in E. injection E as <- _. repeat split. }
-    destruct Ho as (Ho & Hi & Hl & Hg).
-    apply (clash_outputs_differ clash_const _ o r 0 2 E eq_refl Ho).
-    exists (Assignment (fun _ => false) (fun _ => true)), 1%nat, 1%nat, false. split; [reflexivity|].
-    destruct o; simpl in *; subst. reflexivity.
-Qed.
-
-Lemma renumber_latch_clash_input_refuted :
-  ~ wf_defs clash_input /\ exists cfg o r, renumber_aig cfg clash_input = RnOk o r /\
-    ~ Forall2 (same_function clash_input (aig_of_ordered o)) (a_outputs clash_input) (o_outputs o).
-Proof.
-  split.
-  - unfold wf_defs, defined_vars. simpl. intros H. inversion H as [|? ? _ H']; subst.
-    inversion H' as [|? ? Hn _]; subst. apply Hn. left. reflexivity.
-  - destruct (renumber_aig (Config false false false) clash_input) as [o r| | |] eqn:E;
-      try (vm_compute in E; discriminate).
-    assert (Ho : o_outputs o = [4] /\ o_input_count o = 1 /\ o_latches o = [(4, None)] /\ o_gates o = []).
-    { vm_compute in E. injection E as <- _. repeat split. }
-    destruct Ho as (Ho & Hi & Hl & Hg).
-    apply (clash_outputs_differ clash_input _ o r 2 4 E eq_refl Ho).
-    exists (Assignment (fun _ => false) (fun _ => true)), 1%nat, 1%nat, false. split; [reflexivity|].
-    destruct o; simpl in *; subst. reflexivity.
-Qed.
+(* the two witnesses of the former finding D10 and the other kinds of latch clash, both polarities *)
+Example latch_clash_examples :
+  let cfg := Config false false false in
+  (* constant *)
+  renumber_aig cfg (Aig 0 [] [Latch 0 0 None] [0] [] [] [] [] []) = RnErr (LitAlreadyDefined 0) /\
+  renumber_aig cfg (Aig 0 [] [Latch 1 0 None] [0] [] [] [] [] []) = RnErr (LitAlreadyDefined 1) /\
+  (* input *)
+  renumber_aig cfg (Aig 1 [2] [Latch 2 2 None] [2] [] [] [] [] []) = RnErr (LitAlreadyDefined 2) /\
+  renumber_aig cfg (Aig 1 [2] [Latch 3 2 None] [2] [] [] [] [] []) = RnErr (LitAlreadyDefined 3) /\
+  (* gate output *)
+  renumber_aig cfg (Aig 2 [2] [Latch 4 2 None] [4] [] [] [] [] [AndGate 2 2 4]) = RnErr (LitAlreadyDefined 4) /\
+  renumber_aig cfg (Aig 2 [2] [Latch 4 2 None] [5] [] [] [] [] [AndGate 2 2 5]) = RnErr (LitAlreadyDefined 4) /\
+  (* earlier latch *)
+  renumber_aig cfg (Aig 3 [2] [Latch 6 2 None; Latch 7 2 None] [6] [] [] [] [] []) = RnErr (LitAlreadyDefined 7) /\
+  (* no clash: a negated latch state literal is fine *)
+  match renumber_aig cfg (Aig 3 [2] [Latch 7 2 None] [6] [] [] [] [] []) with
+  | RnOk o _ => o_outputs o = [5] /\ o_latches o = [(2, None)]
+  | _ => False
+  end.
+Proof. vm_compute. repeat split. Qed.
 
 (* ------------------------------------------------------------ termination on acyclic graphs *)
 
@@ -2021,8 +2296,9 @@ Qed.
 (* the fuel supplied by [renumber_aig] is enough for every acyclic graph, well formed or not *)
 Theorem renumber_terminates_acyclic cfg a : acyclic a -> renumber_aig cfg a <> RnOutOfFuel.
 Proof.
-  intros [rank Hrank]. unfold renumber_aig, renumber_new.
-  destruct (lit_defs a) as [defs|e] eqn:Ed; [|discriminate].
+  intros [rank Hrank]. unfold renumber_aig.
+  destruct (renumber_new_unfold cfg a) as [(e & _ & E)|[(defs & e & _ & _ & E)|(defs & Ed & _ & _ & E)]];
+    rewrite E; try discriminate.
   destruct (init_state_inv cfg defs a (lit_defs_sound a defs Ed)) as (G0 & Hs0 & _).
   pose proof (transfer_all_terminates a rank Hrank (roots cfg a) _ G0 Hs0) as H.
   destruct (transfer_all _ _ _) as [r|e|]; [destruct (build_ordered a r); discriminate|discriminate|contradiction].
